@@ -7,7 +7,7 @@ export GOFLAGS=-mod=mod GOPROXY=off GOSUMDB=off GOTOOLCHAIN=local
 # suites may be running on this machine
 NS="unshare -n sh -c"
 gt() { unshare -n sh -c "ip link set lo up; $*"; }
-dst=/verif/seeded/$prop-m$idx
+dst=/verif/seeded/$prop-${SEED_PREFIX:-m}$idx
 mkdir -p $dst
 wt=$(mktemp -d /tmp/cfwt.XXXXXX)
 git -C /repo worktree add -q --detach $wt HEAD || exit 9
@@ -32,4 +32,4 @@ json.dump({"property":prop,"mutant":int(idx),"valid_seeded_change":valid,"needs_
  "commands":["go test -vet=off -count=1 -run '^TestMutantDemo$' ./<pkg> (scratch worktree of /repo HEAD, with and without patch.diff)","go test -vet=off -count=1 -timeout 4m ./... (with patch.diff)"]},
  "detected_by":"see DESIGN.md section 10 (filled in after the check run)"}, open(dst+'/meta.json','w'), indent=1)
 PY
-echo "$prop m$idx valid=$(python3 -c "import json;print(json.load(open('$dst/meta.json'))['valid_seeded_change'])") | base: $base | mut: $mut | suite: $suite"
+echo "$prop ${SEED_PREFIX:-m}$idx valid=$(python3 -c "import json;print(json.load(open('$dst/meta.json'))['valid_seeded_change'])") | base: $base | mut: $mut | suite: $suite"
